@@ -60,13 +60,13 @@ def key_with_target(src, t, fixed=None):
     return id_in_bucket(src, "key", t, fixed)
 
 
-def node_info(eng, idb, tag):
+def node_info(eng, idb, tag, seen=None):
     cap = mk_struct(eng, "core_engine::NodeCapacity", {"storage_available": bv(tag, 64), "bandwidth_available": bv(0, 64), "reliability_score": fpv(1.0)})
     return mk_struct(eng, "core_engine::NodeInfo", {"id": VStruct([VStruct([idb], "DhtKey")], "NodeId"), "address": VStr(bv(1000 + tag, 64)),
-                                                  "last_seen": mk_time(bv(0, 64), bv(0, 32), "SystemTime"), "capacity": cap})
+                                                  "last_seen": mk_time(bv(0, 64) if seen is None else seen, bv(0, 32), "SystemTime"), "capacity": cap})
 
 
-def build_table(eng, src, layout, B, max_size=None, fixed=None):
+def build_table(eng, src, layout, B, max_size=None, fixed=None, seen=False):
     """layout: list of bucket indices that may be populated.  -> (table value, nodes [(bucket, slot, idbv, valid)], lens)"""
     buckets = []
     nodes = []
@@ -80,7 +80,12 @@ def build_table(eng, src, layout, B, max_size=None, fixed=None):
             elems = []
             for s in range(caps[j]):
                 idb = id_in_bucket(src, f"b{j}s{s}", j, fixed(tag) if fixed else None)
-                elems.append(node_info(eng, idb, tag))
+                sv = None
+                if seen:
+                    # when the peer was last seen (whole seconds, any time before 2^40): entries may be arbitrarily stale
+                    sv = src.bv(f"b{j}s{s}.seen", 64)
+                    src.hyps.append(z3.ULT(sv, bv(1 << 40, 64)))
+                elems.append(node_info(eng, idb, tag, sv))
                 nodes.append((j, s, key_bv(idb), z3.ULT(bv(s, 64), ln), tag))
                 tag += 1
             buckets.append(VStruct([VSeq(elems, ln), bv(8, 64) if max_size is None else max_size], "KBucket"))
@@ -150,14 +155,18 @@ def build_closest(ck, layout, t, B, maxcount, src, obs=None):
     return {"eng": eng, "hyps": hyps, "goals": {g: z3.Implies(pc, f) for g, f in G.items()}, "reach": {"reach_nonempty": z3.And(pc, rl != 0)}}
 
 
-def build_mutation(ck, layout, xb, B, op, src, obs=None):
-    """add_node / remove_node of an arbitrary id x in bucket xb (xb=None: x is the local id) followed by a full listing of the table"""
+def build_mutation(ck, layout, xb, B, op, src, obs=None, symcap=False):
+    """add_node / remove_node of an arbitrary id x in bucket xb (xb=None: x is the local id) followed by a full listing of the table.
+    symcap: the bucket capacity is symbolic in 1..=B (so that FULL buckets are reached with few entries) and every entry's last-seen time is arbitrary"""
     eng = ck.engine(unwind=260) if obs is None else ck.meta_engine()
     eng.seq_cap = 24
-    table, nodes, lens = build_table(eng, src, layout, B)
+    cap = src.bv("bucket_cap", 64) if symcap else None
+    table, nodes, lens = build_table(eng, src, layout, B, max_size=cap, seen=symcap)
     xbytes = VArr([bv(0, 8)] * 32) if xb is None else id_in_bucket(src, "x", xb)
     xbv = key_bv(xbytes)
     hyps = list(src.hyps) + table_hyps(nodes, lens, B)
+    if symcap:
+        hyps += [z3.UGE(cap, 1), z3.ULE(cap, bv(B, 64))] + [z3.ULE(ln, cap) for ln in lens.values()]
     present0 = z3.Or(*[z3.And(n[3], n[2] == xbv) for n in nodes]) if nodes else z3.BoolVal(False)
     XTAG = 999
     if obs is None:
@@ -167,7 +176,19 @@ def build_mutation(ck, layout, xb, B, op, src, obs=None):
         if op == "add":
             fn = [n for n in ck.crate.find(r"core_engine::<impl at [^>]*>::add_node$") if "KademliaRoutingTable" in (eng.impl_info(n) or ("", ""))[1] or True]
             name = [n for n in fn if (eng.impl_info(n) or (None, None))[1] == "KademliaRoutingTable"][0]
-            st1, r = eng.call(name, [rt, node_info(eng, xbytes, XTAG)], st)
+            xseen = None
+            if symcap:
+                xseen = src.bv("x.seen", 64)
+                hyps.append(z3.ULT(xseen, bv(1 << 40, 64)))
+            eng.clock_readings = []
+            st1, r = eng.call(name, [rt, node_info(eng, xbytes, XTAG, xseen)], st)
+            if symcap:
+                # every wall-clock reading of the call is the same pinned second (replayed through the clock shim)
+                now = src.bv("now.s", 64)
+                src.hyps.append(z3.ULT(now, bv(1 << 40, 64)))
+                for rd in eng.clock_readings:
+                    src.hyps.append(rd.f[0] == now)
+            hyps += [h for h in src.hyps if not any(h is y for y in hyps)]
             ok = r.idx == bv(0, 8)
         else:
             fn = [n for n in ck.crate.find(r"core_engine::<impl at [^>]*>::remove_node$") if (eng.impl_info(n) or (None, None))[1] == "KademliaRoutingTable"][0]
@@ -192,7 +213,8 @@ def build_mutation(ck, layout, xb, B, op, src, obs=None):
     G["table_never_lists_the_local_node"] = z3.And(*[z3.Implies(v, i != bv(0, 256)) for (_, i, v) in post]) if post else z3.BoolVal(True)
     G["table_lists_each_peer_at_most_once"] = z3.And(*[z3.Implies(z3.And(post[a][2], post[b][2]), post[a][1] != post[b][1]) for a in range(len(post)) for b in range(a)]) if len(post) > 1 else z3.BoolVal(True)
     G["every_entry_sits_in_the_bucket_of_its_first_differing_bit"] = z3.And(*[z3.Implies(v, first_bit_is(i, j)) for (j, i, v) in post]) if post else z3.BoolVal(True)
-    G["all_other_peers_are_kept"] = z3.And(*[z3.Implies(z3.And(n[3], n[2] != xbv), occ(n[2]) == 1) for n in nodes]) if nodes else z3.BoolVal(True)
+    # with a symbolic capacity a full bucket may legitimately drop an entry to make room (that is policy, not part of the property): each OTHER peer is then still listed at most once
+    G["all_other_peers_are_kept"] = z3.And(*[z3.Implies(z3.And(n[3], n[2] != xbv), z3.ULE(occ(n[2]), 1) if symcap else occ(n[2]) == 1) for n in nodes]) if nodes else z3.BoolVal(True)
     if op == "add":
         G["accepted_peer_is_listed_exactly_once"] = z3.Implies(z3.And(ok, xbv != bv(0, 256)), occ(xbv) == 1)
         G["refused_peer_leaves_the_table_unchanged"] = z3.Implies(z3.Not(ok), occ(xbv) == z3.If(present0, bv(1, 64), bv(0, 64)))
@@ -377,7 +399,8 @@ def closest_cases(tier):
 
 def mutation_cases(tier):
     """(layout, bucket of x or None for the local id, B, op)"""
-    cs = [([3, 7], 3, 2, "add"), ([3, 7], None, 2, "add"), ([3, 7], 9, 2, "add"), ([3, 7], 3, 2, "remove"), ([0, 255], 255, 2, "add"), ([0, 255], 0, 2, "remove")]
+    cs = [([3, 7], 3, 2, "add"), ([3, 7], None, 2, "add"), ([3, 7], 9, 2, "add"), ([3, 7], 3, 2, "remove"), ([0, 255], 255, 2, "add"), ([0, 255], 0, 2, "remove"),
+          ([3, 7], 3, 3, "add+cap")]
     if tier != "quick":
         cs += [([3, 7], 7, 3, "add"), ([3, 7], 9, 2, "remove"), ([3, 7], None, 2, "remove")]
     return cs
@@ -405,7 +428,7 @@ def builder_for(ck, driver, params):
         return lambda s, obs: build_engine_ops(ck, params["layout"], params["t"], params["B"], params["maxcount"], params["fail"], s, obs, params.get("readd", False), params.get("evict", False), params.get("reply", False))
     if driver == "closest":
         return lambda s, obs: build_closest(ck, params["layout"], params["t"], params["B"], params["maxcount"], s, obs)
-    return lambda s, obs: build_mutation(ck, params["layout"], params["xb"], params["B"], params["op"], s, obs)
+    return lambda s, obs: build_mutation(ck, params["layout"], params["xb"], params["B"], params["op"], s, obs, params.get("symcap", False))
 
 
 def run(tier):
@@ -415,8 +438,10 @@ def run(tier):
         tag = f"closest[buckets={layout},target={t},B={B},count<={mc}]"
         ck.guarded(tag, lambda params=params, tag=tag: register(ck, tag, "closest", params, builder_for(ck, "closest", params)))
     for (layout, xb, B, op) in mutation_cases(tier):
-        params = {"layout": layout, "xb": xb, "B": B, "op": op}
-        tag = f"{op}[buckets={layout},x in {xb if xb is not None else 'local'}]"
+        params = {"layout": layout, "xb": xb, "B": B, "op": op.split("+")[0]}
+        if op.endswith("+cap"):
+            params["symcap"] = True
+        tag = f"{op}[buckets={layout},x in {xb if xb is not None else 'local'}]" + (" (symbolic bucket capacity <= %d, arbitrary last-seen times)" % B if params.get("symcap") else "")
         ck.guarded(tag, lambda params=params, tag=tag: register(ck, tag, "mutation", params, builder_for(ck, "mutation", params)))
     for params, tag in engine_cases():
         ck.guarded(tag, lambda params=params, tag=tag: register(ck, tag, "engine_ops", params, builder_for(ck, "engine_ops", params)))
